@@ -414,12 +414,12 @@ func (g *pgen) varValue(ty string) string {
 	switch ty {
 	case "account":
 		if badv {
-			return gen.Pick(g.r, []string{"", "a:", "sp ace", "é", ":a", "a::b"})
+			return gen.Pick(g.r, []string{"", "a:", "sp ace", "é", ":a", "a::b", "users:001\n", "a ", " b", "\tc"})
 		}
 		return g.acctName()
 	case "asset":
 		if badv {
-			return gen.Pick(g.r, []string{"", "usd", "USD//2", "1USD", "USD/1234567", "US D"})
+			return gen.Pick(g.r, []string{"", "usd", "USD//2", "1USD", "USD/1234567", "US D", " USD", "USD/2 ", "COIN\n"})
 		}
 		return gen.Pick(g.r, assetVarPool)
 	case "number":
@@ -452,8 +452,95 @@ func (g *pgen) varValue(ty string) string {
 	}
 }
 
+// genRepeatSource: one bounded account used as a source in several sends / clauses
+// with different overdraft allowances, starting from a balance that may already be
+// below some of the floors (negative), with small amounts so that many runs succeed.
+// This is the shape where a wrong floor in withdrawAll shows (C23), and where tracked
+// balances must carry over from one statement to the next (C22 balances_track).
+func genRepeatSource(r *rand.Rand) (Script, RunEnv) {
+	env := RunEnv{Vars: map[string]string{}, Balances: map[string]map[string]string{}, Meta: map[string]map[string]string{}}
+	asset := gen.Pick(r, assetPool)
+	acc := gen.Pick(r, []string{"a", "b", "users:001"})
+	var sc Script
+	useVar := r.Intn(3) == 0
+	if useVar {
+		sc.Vars = append(sc.Vars, VarDecl{Ty: "account", Name: "src"})
+		env.Vars["src"] = acc
+	}
+	accE := func() *Expr {
+		if useVar && r.Intn(2) == 0 {
+			return &Expr{K: "var", S: "src"}
+		}
+		return &Expr{K: "acct", S: acc}
+	}
+	bounds := []int{0, 0, 5, 20, 50, 100, 200}
+	leaf := func() (Source, int) {
+		b := gen.Pick(r, bounds)
+		s := Source{K: "acct", E: accE()}
+		if b > 0 || r.Intn(4) == 0 {
+			s.Od = &Overdraft{K: "upto", E: &Expr{K: "mon", A: &Expr{K: "asset", S: asset}, N: fmt.Sprint(b)}}
+		}
+		return s, b
+	}
+	n := 2 + r.Intn(3)
+	for i := 0; i < n; i++ {
+		l, b := leaf()
+		src := l
+		switch r.Intn(6) {
+		case 0: // backed by another source
+			other := Source{K: "acct", E: &Expr{K: "acct", S: gen.Pick(r, []string{"c", "d", "world"})}}
+			src = Source{K: "inorder", Ss: []Source{l, other}}
+		case 1: // capped
+			src = Source{K: "max", E: &Expr{K: "mon", A: &Expr{K: "asset", S: asset}, N: fmt.Sprint(r.Intn(60))}, S: &l}
+		case 2: // the same account twice in one block (allowed through max / a variable)
+			l2, b2 := leaf()
+			if b2 > b {
+				b = b2
+			}
+			m := Source{K: "max", E: &Expr{K: "mon", A: &Expr{K: "asset", S: asset}, N: fmt.Sprint(r.Intn(40))}, S: &l}
+			src = Source{K: "inorder", Ss: []Source{m, l2}}
+		}
+		amt := 0
+		switch r.Intn(4) {
+		case 0:
+		case 1:
+			amt = r.Intn(b + 2)
+		default:
+			if b > 0 {
+				amt = 1 + r.Intn(b)
+			}
+		}
+		vs := VSource{K: "src", S: &src}
+		dst := Dest{K: "acct", E: &Expr{K: "acct", S: gen.Pick(r, []string{"x", "y", "world", acc})}}
+		if r.Intn(5) == 0 {
+			sc.Stmts = append(sc.Stmts, Stmt{K: "sendall", E: &Expr{K: "asset", S: asset}, Src: &vs, Dst: &dst})
+		} else {
+			sc.Stmts = append(sc.Stmts, Stmt{K: "send", E: &Expr{K: "mon", A: &Expr{K: "asset", S: asset}, N: fmt.Sprint(amt)}, Src: &vs, Dst: &dst})
+		}
+	}
+	var bal string
+	switch r.Intn(5) {
+	case 0:
+		bal = fmt.Sprint(r.Intn(60))
+	case 1:
+		bal = "0"
+	default:
+		bal = "-" + fmt.Sprint(1+r.Intn(150))
+	}
+	env.Balances[acc] = map[string]string{asset: bal}
+	for _, o := range []string{"c", "d", "x", "y"} {
+		if r.Intn(2) == 0 {
+			env.Balances[o] = map[string]string{asset: fmt.Sprint(r.Intn(100) - 20)}
+		}
+	}
+	return sc, env
+}
+
 // GenProgram draws a script and its environment.
 func GenProgram(r *rand.Rand, wide bool) (Script, RunEnv) {
+	if r.Intn(7) == 0 {
+		return genRepeatSource(r)
+	}
 	g := &pgen{r: r, wide: wide, bad: 12}
 	if r.Intn(4) == 0 {
 		g.bad = 60
@@ -471,9 +558,9 @@ func GenProgram(r *rand.Rand, wide bool) (Script, RunEnv) {
 			continue // account unknown to the store
 		}
 		m := map[string]string{}
-		for ty, k := range metaKeys {
+		for _, ty := range tyPool { // fixed order: map iteration would break seed determinism
 			if r.Intn(10) > 0 {
-				m[k] = g.varValue(ty)
+				m[metaKeys[ty]] = g.varValue(ty)
 			}
 		}
 		g.env.Meta[a] = m
